@@ -8,6 +8,8 @@ CONSTANTS
   Reqs <- ReqsL
   PodAttr <- PA2
   TermPhases = {"Failed"}
+  TermVals = {FALSE, TRUE}
+  DeadVals = {FALSE, TRUE}
   FixLedger = TRUE
   FixNominate = TRUE
   AllowMigrate = FALSE
